@@ -78,7 +78,9 @@ theorem entry_line {s : Syn} (hs : entryOk T s = true) {c : Ctx} (hc : c ∈ s.s
     | ok c' =>
       rw [hr] at hrun
       refine ⟨b, c', by rw [hsel, hk], by simpa using hne, hnot, ?_, ?_⟩
-      · unfold stepLine; rw [hsel, hk]; exact hr
+      · have hmem : f.code ∈ T.shxCodes := by rw [hcode]; simpa using hcard
+        have hat : atomTestRaises T f = false := by simp [atomTestRaises, Form.isAtomName, hmem]
+        unfold stepLine; rw [hat, hsel, hk]; simpa using hr
       · intro hb hcb
         simp only [hb, Bool.true_and, Bool.or_eq_true, Bool.not_eq_true'] at hrun
         rcases hrun with h | h
